@@ -102,7 +102,8 @@ def gen(rng, plain_tree):
         uris += ([w] if w else []) + ([CAP + 'notification:1.0'] if rng.random() < 0.7 else []) + ([CAP + 'xpath:1.0'] if rng.random() < 0.5 else [])
         rng.shuffle(uris)
     # profiles that write the same `nc:`-prefixed envelope and do not override these operations
-    return {'kind': 'build', 'op': op, 'args': a, 'uris': uris, 'profile': rng.choice(['default', 'default', 'iosxr', 'csr'])}
+    # every fourth call is made in asynchronous mode: a local refusal is raised from the call all the same
+    return {'kind': 'build', 'op': op, 'args': a, 'uris': uris, 'profile': rng.choice(['default', 'default', 'iosxr', 'csr']), 'async': rng.random() < 0.25}
 
 
 def url_ok(u):
@@ -123,6 +124,8 @@ def run_impl(case, plain_build, plain_from_etree):
     a, op = case['args'], case['op']
     m, s, dh = make_manager(profile=case.get('profile', 'default'), raise_mode=0, server_caps=list(case['uris']),
                             responder=lambda req, mid: '<rpc-reply message-id="%s" xmlns="%s"><ok/></rpc-reply>' % (mid, BASE))
+    m.async_mode = bool(case.get('async'))
+    caps_before = [(u, sorted(m.server_capabilities[u].parameters.items())) for u in m.server_capabilities]
     try:
         if op == 'edit':
             cfg = a['cfg']
@@ -225,6 +228,12 @@ def run_impl(case, plain_build, plain_from_etree):
     except Exception as e:
         out = 'other:' + type(e).__name__
     res = {'out': out, 'nsent': len(s.sent)}
+    try:
+        caps_after = [(u, sorted(m.server_capabilities[u].parameters.items())) for u in m.server_capabilities]
+    except Exception as e:
+        caps_after = 'exc:' + type(e).__name__
+    if caps_after != caps_before:
+        res['caps_changed'] = [str(caps_before)[:300], str(caps_after)[:300]]
     if s.sent:
         xml = s.sent[0]
         res['ser'] = xml[xml.index('?>') + 2:] if xml.startswith('<?xml') else xml
@@ -403,10 +412,15 @@ def oracle(case, io, pid):
     tag = '%s%s' % (op, {k: v for k, v in a.items() if k not in ('cfg', 'filter')})
     if io['out'].startswith('other:'):
         return (pid + ':builder-unexpected-exception:' + op, '%s raised %s' % (tag, io['out']))
+    if io.get('caps_changed'):
+        return (pid + ':server-capabilities-changed-by-call', '%s changed what the session reports as the server\'s capabilities: %s -> %s' % (tag, io['caps_changed'][0], io['caps_changed'][1]))
     if io['out'] != 'ok':
         if io['nsent']:
             return (pid + ':refused-but-sent:' + op, '%s was refused (%s) yet %d message(s) were sent' % (tag, io['out'], io['nsent']))
         return None
+    if io['nsent'] != 1:
+        return (pid + ':returned-without-sending:' + op, '%s returned normally (%s mode) but %d messages were sent; capabilities it depends on and the server lacks: %s' % (
+            tag, 'asynchronous' if case.get('async') else 'synchronous', io['nsent'], [c for c in required(case) if not server_has(case['uris'], c)]))
     # sent: gating
     miss = [c for c in required(case) if not server_has(case['uris'], c)]
     if miss:
